@@ -388,4 +388,97 @@ def hsStepFixed {σ : Type} (pointOk macOk : Bytes → Bool) (cfg : Cfg) (R : Re
 def header (len : Nat) : Bytes :=
   [magic0, magic1, UInt8.ofNat (len / 16777216), UInt8.ofNat (len / 65536), UInt8.ofNat (len / 256), UInt8.ofNat len]
 
+/-! ### dropping the connection: `Peer.Close` / `Peer.safeClose` called from several goroutines
+
+  readLoop, heartbeatLoop, ProtocolManager.handlePeer, Server.runPeer, peerSet.UnRegister … all call
+  `Peer.Close()` on the same peer, possibly at the same instant (a remote arranges it with one
+  rejected message followed by garbage).  `safeClose` is check-then-act:
+
+      select { case <-p.stopCh: return; default: }      -- check
+      close(p.stopCh)                                   -- act: panics if already closed
+      …
+
+  and `Close` wraps it in `p.wmu.Lock() … p.wmu.Unlock()`.  The model interleaves any number of
+  closers at the granularity of these four steps. -/
+namespace Close
+
+inductive PC where
+  | start        -- before `p.wmu.Lock()` (or before the check when there is no mutex)
+  | inCheck      -- lock acquired, about to run the `select` on stopCh
+  | willClose    -- the check saw stopCh open: about to `close(p.stopCh)`
+  | willUnlock   -- returned from safeClose, about to `p.wmu.Unlock()`
+  | done
+  deriving DecidableEq, Repr
+
+structure St where
+  pc : Nat → PC          -- one program counter per closer (goroutine id)
+  holder : Option Nat    -- owner of p.wmu
+  closed : Bool          -- stopCh is closed
+  closes : Nat           -- number of `close(p.stopCh)` executed
+  panicked : Bool        -- "close of closed channel": the process is dead
+
+def upd (f : Nat → PC) (i : Nat) (v : PC) : Nat → PC := fun j => if j = i then v else f j
+
+def init : St := { pc := fun _ => .start, holder := none, closed := false, closes := 0, panicked := false }
+
+/-- goroutine `i` executes its next step (a closer blocked on the mutex stutters) -/
+def step (mutex : Bool) (s : St) (i : Nat) : St :=
+  if s.panicked then s
+  else
+    match s.pc i with
+    | .start =>
+      if mutex then
+        (if s.holder = none then { s with pc := upd s.pc i .inCheck, holder := some i } else s)
+      else { s with pc := upd s.pc i .inCheck }
+    | .inCheck =>
+      if s.closed then { s with pc := upd s.pc i .willUnlock }
+      else { s with pc := upd s.pc i .willClose }
+    | .willClose =>
+      if s.closed then { s with panicked := true }
+      else { s with closed := true, closes := s.closes + 1, pc := upd s.pc i .willUnlock }
+    | .willUnlock =>
+      if mutex then { s with holder := none, pc := upd s.pc i .done }
+      else { s with pc := upd s.pc i .done }
+    | .done => s
+
+/-- a schedule is the list of goroutine ids in the order the scheduler runs them -/
+def run (mutex : Bool) (s : St) : List Nat → St
+  | [] => s
+  | i :: rest => run mutex (step mutex s i) rest
+
+/-! T2 facts: every `close(….stopCh)` and every call of a function that closes it unguarded, with
+    how the site is protected.  Regenerated from the AST of network/p2p/*.go by `hx c15` on every
+    run and compared row by row with this table (`table-mismatch` otherwise). -/
+
+inductive Guard where
+  | wmuHeld      -- dominated by `….wmu.Lock()` in the same function
+  | viaCallers   -- the function does not lock itself; all its call sites are rows of the table
+  | unguarded
+  deriving DecidableEq, Repr
+
+def Guard.name : Guard → String
+  | .wmuHeld => "wmu-held"
+  | .viaCallers => "via-callers"
+  | .unguarded => "unguarded"
+
+structure CloseSite where
+  stmt : String
+  fn : String
+  guard : Guard
+  deriving DecidableEq, Repr
+
+def CloseSite.row (r : CloseSite) : String := r.stmt ++ "|" ++ r.fn ++ "|" ++ r.guard.name
+
+def closeSites : List CloseSite :=
+  [ ⟨"close(stopCh)", "safeClose", .viaCallers⟩,
+    ⟨"safeClose()", "Close", .wmuHeld⟩ ]
+
+/-- does the code, according to the fact table, run check+close under the mutex? -/
+def mutexOfTable : Bool := closeSites.all (fun r => r.guard != .unguarded)
+
+/-- k closers, each scheduled 4·k times round-robin (enough for all of them to finish) -/
+def roundRobin (k : Nat) : List Nat := (List.replicate (4 * k) (List.range k)).flatten
+
+end Close
+
 end LemoModel.Frame
